@@ -209,6 +209,7 @@ class InlinedFunction:
         self.refused = []
         self._assigned = {}
         self._hoisted_calls = set()
+        self._replace = {}
         self.body = self._copy(fn.body, {}, {}, 0, (fn.d.get("decl"),), False) if fn.body is not None else None
         self.d = dict(fn.d)
         self.d["body"] = self.body
@@ -299,6 +300,8 @@ class InlinedFunction:
     def _copy(self, n, subst, dmap, depth, stack, fresh_ids, in_stmt=False):
         if not isinstance(n, dict):
             return n
+        if id(n) in self._replace:
+            return dict(self._replace[id(n)])
         k = n.get("k")
         if k == "Ref":
             d = n.get("d")
@@ -342,7 +345,9 @@ class InlinedFunction:
                     seq.append(self._stmt(x, subst, dmap, depth, stack, fresh_ids))
                 out[key] = seq
             elif key in STMT_SLOTS and isinstance(v, dict):
-                out[key] = self._stmt(v, subst, dmap, depth, stack, fresh_ids)
+                hs = self._hoisted(v, subst, dmap, depth, stack, fresh_ids)
+                sv = self._stmt(v, subst, dmap, depth, stack, fresh_ids)
+                out[key] = {"k": "Block", "i": next(_fresh), "l": v.get("l"), "s": hs + [sv]} if hs else sv
             elif key == "s" and isinstance(v, dict):
                 out[key] = self._stmt(v, subst, dmap, depth, stack, fresh_ids)
             elif isinstance(v, dict) and "k" in v:
@@ -373,29 +378,96 @@ class InlinedFunction:
 
     SIMPLE_STMT = ("Decl", "Assign", "Call", "MCall", "OpCall", "Return", "Un", "Bin", "Construct", "TempObj")
 
+    @staticmethod
+    def _unconditional(root):
+        """nodes of an expression that are evaluated whenever the expression is (not the right operand of && / ||, not an
+        arm of ?:, not a lambda body)"""
+        st = [root]
+        while st:
+            x = st.pop()
+            if not isinstance(x, dict):
+                continue
+            yield x
+            k = x.get("k")
+            if k == "Lambda":
+                continue
+            if k == "Bin" and x.get("op") in ("&&", "||"):
+                st.append(x.get("lhs"))
+                continue
+            if k == "Cond":
+                st.append(x.get("c"))
+                continue
+            st.extend(reversed(list(children(x))))
+
+    def _patch_returns(self, node, ret_d, ret_t, name):
+        """InlReturn(e) of THIS inline frame -> { $ret = e; InlReturn }"""
+        def fix(x):
+            if isinstance(x, dict) and x.get("k") == "InlReturn" and x.get("e") is not None:
+                asg = {"k": "Assign", "i": next(_fresh), "l": x.get("l"), "t": ret_t, "op": "=",
+                       "lhs": {"k": "Ref", "i": next(_fresh), "l": x.get("l"), "t": ret_t, "n": name, "d": ret_d, "dk": "local"}, "rhs": x["e"]}
+                return {"k": "Block", "i": next(_fresh), "l": x.get("l"), "s": [asg, {"k": "InlReturn", "i": next(_fresh), "l": x.get("l")}]}
+            if isinstance(x, dict):
+                self._patch_returns(x, ret_d, ret_t, name)
+            return x
+        if not isinstance(node, dict) or node.get("k") == "Lambda":
+            return
+        for key in ("s",) + STMT_SLOTS:
+            v = node.get(key)
+            if isinstance(v, list):
+                node[key] = [x if (isinstance(x, dict) and x.get("inl") is not None) else fix(x) for x in v]
+            elif isinstance(v, dict) and v.get("inl") is None:
+                node[key] = fix(v)
+
     def _hoisted(self, x, subst, dmap, depth, stack, fresh_ids):
-        """value-returning helpers with a real body that are called inside the simple statement x: their bodies are placed
-        (parameters bound) as inline blocks in front of x, so that rules over subscripts / stores / calls see them; the
-        returned value stays the opaque call in x ('inl_value' marks such a block)"""
-        if not isinstance(x, dict) or x.get("k") not in self.SIMPLE_STMT:
+        """value-returning helpers with a real body that are called unconditionally inside the simple statement x or in the
+        condition of the if/switch statement x: their bodies are placed (parameters bound) as inline blocks in front of x and
+        the call is replaced by a local that holds the returned value - `T $h = E;` as the last statement of the block when the
+        helper ends in its only `return E;` (single-assignment local: looked through by resolution), otherwise `T $h;` assigned
+        at every return ('inl_value' marks such a block).  `if (helper_that_tests_and_performs(r, y, alpha)) return;` thus
+        becomes the helper's statements followed by a test of its return value."""
+        if not isinstance(x, dict):
+            return []
+        if x.get("k") in self.SIMPLE_STMT:
+            roots = [x]
+        elif x.get("k") == "If":
+            roots = [x.get("init"), x.get("c")]
+        elif x.get("k") == "Switch":
+            roots = [x.get("c")]
+        else:
             return []
         out = []
-        for n in walk(x, prune=lambda y: y.get("k") == "Lambda"):
-            if n is x and x.get("k") in ("Call", "MCall"):
-                continue                 # the statement itself: _stmt
-            callee, why = self._callee_of(n, depth, stack)
-            if callee is None:
-                continue
-            st = callee.body.get("s", []) if callee.body.get("k") == "Block" else []
-            if len(st) == 1 and st[0].get("k") == "Return":
-                continue                 # substituted at expression level
-            s2, d2, pro = self._inline_env(n, callee, subst, dmap, depth, stack, fresh_ids)
-            self.inlined.append((callee, n))
-            self._hoisted_calls.add(id(n))
-            body = self._copy(callee.body, s2, d2, depth + 1, stack + (callee.d.get("decl"),), True)
-            stmts = body.get("s", []) if isinstance(body, dict) and body.get("k") == "Block" else [body]
-            out.append({"k": "Block", "i": next(_fresh), "l": n.get("l"), "inl": callee.full, "inl_decl": callee.d.get("decl"), "inl_value": True,
-                        "call": n, "s": pro + stmts})
+        for root in roots:
+            for n in self._unconditional(root):
+                if n is x and x.get("k") in ("Call", "MCall"):
+                    continue                 # the statement itself: _stmt
+                callee, why = self._callee_of(n, depth, stack)
+                if callee is None:
+                    continue
+                st = callee.body.get("s", []) if callee.body.get("k") == "Block" else []
+                if len(st) == 1 and st[0].get("k") == "Return":
+                    continue                 # substituted at expression level
+                s2, d2, pro = self._inline_env(n, callee, subst, dmap, depth, stack, fresh_ids)
+                self.inlined.append((callee, n))
+                self._hoisted_calls.add(id(n))
+                body = self._copy(callee.body, s2, d2, depth + 1, stack + (callee.d.get("decl"),), True)
+                if not (isinstance(body, dict) and body.get("k") == "Block"):
+                    body = {"k": "Block", "i": next(_fresh), "l": n.get("l"), "s": [body]}
+                stmts = body.get("s", [])
+                rd, rt, nm = next(_fresh), callee.d.get("ret"), "$" + (callee.name or "ret")
+                rets = [y for y in walk(body, prune=lambda y: y.get("k") == "Lambda" or (y is not body and y.get("inl") is not None)) if y.get("k") == "InlReturn"]
+                pre = []
+                if len(rets) == 1 and stmts and stmts[-1] is rets[0] and rets[0].get("e") is not None:
+                    stmts[-1] = {"k": "Decl", "i": next(_fresh), "l": rets[0].get("l"), "inl_ret": True,
+                                 "vars": [{"k": "Var", "i": next(_fresh), "l": rets[0].get("l"), "n": nm, "d": rd, "t": rt, "init": rets[0]["e"], "const": True}]}
+                else:
+                    pre = [{"k": "Decl", "i": next(_fresh), "l": n.get("l"), "inl_ret": True,
+                            "vars": [{"k": "Var", "i": next(_fresh), "l": n.get("l"), "n": nm, "d": rd, "t": rt}]}]
+                    self._patch_returns(body, rd, rt, nm)
+                    stmts = body.get("s", [])
+                self._replace[id(n)] = {"k": "Ref", "i": next(_fresh), "l": n.get("l"), "t": rt, "n": nm, "d": rd, "dk": "local", "inl_value_of": callee.full}
+                out.extend(pre)
+                out.append({"k": "Block", "i": next(_fresh), "l": n.get("l"), "inl": callee.full, "inl_decl": callee.d.get("decl"), "inl_value": True,
+                            "call": n, "s": pro + stmts})
         return out
 
     def _stmt(self, n, subst, dmap, depth, stack, fresh_ids):
